@@ -43,7 +43,8 @@ MANIFEST = dict(
           "must not overwrite recovered data. The recorded operation order is validated against the spec's action order. "
           "Histories: timer flushes and rotations (with and without a pending buffer), columns that appear in later blocks, "
           "agile-tree rotations, flushes that run INSIDE the ingest call (flush=true / ?refresh) and a request larger than "
-          "the write buffer (the ingest call flushes by itself mid-request)."),
+          "the write buffer (the ingest call flushes by itself mid-request; thorough), two indexes sharing every flush / rotation "
+          "call and segmeta.json (thorough)."),
     note=("The order validation (Trace_FlushProtocol) covers segments whose rotation has nothing left to flush; a rejected "
           "trace without a property failure is exit 2 (spec drift), not a verdict. "
           "Process-crash model only (completed system calls persist, OS survives): no torn single writes, no power loss. "
@@ -53,6 +54,12 @@ MANIFEST = dict(
 )
 
 IDX = "cr"
+IDXB = "crb"      # second index of the two-index history (ids 5000..5999)
+BOTH = IDX + "," + IDXB
+
+
+def idx_of(i):
+    return IDXB if 5000 <= i < 6000 else IDX
 
 
 def ev(i):
@@ -64,8 +71,8 @@ def ev(i):
     return e
 
 
-def bulk_cmd(ids, index=IDX):
-    return {"op": "bulk", "org": 0, "body": "".join('{"index":{"_index":"%s"}}\n%s\n' % (index, json.dumps(ev(i))) for i in ids)}
+def bulk_cmd(ids, index=None):
+    return {"op": "bulk", "org": 0, "body": "".join('{"index":{"_index":"%s"}}\n%s\n' % (index or idx_of(i), json.dumps(ev(i))) for i in ids)}
 
 
 def history(name):
@@ -80,6 +87,8 @@ def history(name):
         # one request larger than the write buffer: AddEntry flushes the full buffer in the middle of the request (before the
         # event that would not fit), the rest waits for the timer flush
         "big": [("bulk", [1, 2]), ("flush",), ("bulk", list(range(3001, 3056))), ("flush",), ("bulk", [3]), ("flush",)],
+        # two indexes share every flush / rotation call and the node's segmeta.json: each index's part of a flush is its own unit
+        "twoidx": [("bulk", [1, 5001]), ("flush",), ("bulk", [2, 5002, 5003]), ("flush",), ("rotate",), ("bulk", [3, 5004]), ("flush",)],
         "refresh": [("bulk", [1, 2]), ("flush",), ("refresh", 3), ("bulk", [4]), ("refresh", 5), ("refresh", 6), ("bulk", [7]), ("flush",)],
         # the second and third block introduce a column the first block (and the running .sfm) does not know
         "newcol": [("bulk", [1, 2]), ("flush",), ("bulk", [51, 52]), ("flush",), ("bulk", [3, 53]), ("flush",), ("rotate",)],
@@ -141,6 +150,7 @@ def recover_and_check(binary, state_dir, completed, inprog, i_label, maybe=()):
     dr = None
     allowed = set(completed) | set(inprog) | set(maybe)
     unfinished = (set(inprog) | set(maybe)) - set(completed)      # events of the flush that was in progress at the crash
+    SRCH = BOTH if any(isinstance(i, int) and 5000 <= i < 6000 for i in allowed) else IDX
     try:
         dr = vlib.Driver(binary, cwd=state_dir)
         try:
@@ -149,7 +159,7 @@ def recover_and_check(binary, state_dir, completed, inprog, i_label, maybe=()):
             return [("C07:startup:error", "start-up on the crash state failed: %s" % str(e)[:300])]
 
         def search(stage, must, may, sure=None):
-            r = dr.cmd("query", text="*", index=IDX, start=1, end=1900000000000, size=1000, timeout=60)
+            r = dr.cmd("query", text="*", index=SRCH, start=1, end=1900000000000, size=1000, timeout=60)
             res = r.get("res") or {}
             if not r.get("ok") or "qerr" in res or res.get("hang"):
                 bad.append(("C07:query:error", "%s: match-all search failed: %s" % (stage, (r.get("err") or res.get("qerr") or "hang")[:300])))
@@ -182,16 +192,17 @@ def recover_and_check(binary, state_dir, completed, inprog, i_label, maybe=()):
             # the flush in progress is visible as a whole or not at all; events of a request larger than the write buffer
             # (ids 3000..3999) are flushed in request order by the ingest call itself: the visible ones must be a prefix of it
             small = set(i for i in inprog if not 3000 <= i < 4000 and i not in maybe) if stage == "after restart" else set()
-            got_inprog = set(ids) & small - set(must)
-            if small and got_inprog and got_inprog != small - set(must):
-                bad.append(("C07:partial-flush", "%s: the flush in progress is partly visible: %s of %s" % (stage, sorted(got_inprog), sorted(small - set(must)))))
+            for part in (set(i for i in small if idx_of(i) == IDX), set(i for i in small if idx_of(i) == IDXB)):
+                got_inprog = set(ids) & part - set(must)
+                if part and got_inprog and got_inprog != part - set(must):
+                    bad.append(("C07:partial-flush", "%s: the flush in progress is partly visible: %s of %s" % (stage, sorted(got_inprog), sorted(part - set(must)))))
             bigs = sorted(i for i in (set(may) | set(must)) if isinstance(i, int) and 3000 <= i < 4000)
             vis = [i in set(ids) for i in bigs]
             if any(b and not a for a, b in zip(vis, vis[1:])):
                 bad.append(("C07:partial-flush", "%s: events of one large request are visible with holes (they are flushed in request order): visible %s" % (
                     stage, [i for i, v in zip(bigs, vis) if v][:10])))
             # count must agree with what is searchable
-            r2 = dr.cmd("query", text="* | stats count", index=IDX, start=1, end=1900000000000, timeout=60)
+            r2 = dr.cmd("query", text="* | stats count", index=SRCH, start=1, end=1900000000000, timeout=60)
             res2 = r2.get("res") or {}
             if not r2.get("ok") or "qerr" in res2 or res2.get("hang"):
                 bad.append(("C07:query:error", "%s: stats count failed: %s" % (stage, (r2.get("err") or res2.get("qerr") or "hang")[:300])))
@@ -208,7 +219,7 @@ def recover_and_check(binary, state_dir, completed, inprog, i_label, maybe=()):
                 if c != len(set(ids)):
                     bad.append(("C07:count-mismatch", "%s: count(*) = %s but a match-all search returns %d events" % (stage, c, len(set(ids)))))
             # a match-all group-by must be answered (it reads the segment's agile tree when there is one) and agree as well
-            r4 = dr.cmd("query", text="* | stats count by w", index=IDX, start=1, end=1900000000000, timeout=60)
+            r4 = dr.cmd("query", text="* | stats count by w", index=SRCH, start=1, end=1900000000000, timeout=60)
             res4 = r4.get("res") or {}
             if not r4.get("ok") or "qerr" in res4 or res4.get("hang"):
                 bad.append(("C07:query:error", "%s: group-by count failed: %s" % (stage, (r4.get("err") or res4.get("qerr") or "hang")[:300])))
@@ -428,6 +439,8 @@ CHECK_DEADLOCK FALSE
 
 def validate_order(chk, name, ops, data):
     """trace validation of the recorded file-operation order of every suitable segment of the run"""
+    if name == "twoidx":
+        return       # two segments per flush / rotation window: the windows of spec_events are per single-segment history
     n_ok = 0
     for seg in range(4):
         pr = spec_events(ops, data, seg)
@@ -605,7 +618,7 @@ def run(chk):
                                    "CountAgrees": "violated" if "CountAgrees" in rc.violated else "holds"}
     binary = vlib.build_driver()
     rnd = random.Random(chk.seed)
-    names = ["f3r", "rotwip", "tree", "newcol", "refresh", "big"] if quick else ["f3r", "rotwip", "tree", "newcol", "refresh", "big", "f1", "r2", "wide"]
+    names = ["f3r", "rotwip", "tree", "newcol", "refresh"] if quick else ["f3r", "rotwip", "tree", "newcol", "refresh", "big", "twoidx", "f1", "r2", "wide"]
     for nm in names:
         run_history(chk, binary, nm, quick, rnd)
     chk.assumptions += [
